@@ -313,6 +313,48 @@ theorem mrs_split_shape (d : Nat) (child l rr : MTree r d) (c c1 : Ctx) (hsp : M
       · obtain ⟨c, hc, hin⟩ := List.mem_flatMap.mp hid
         exact List.mem_flatMap.mpr ⟨c, List.mem_of_mem_drop hc, hin⟩
 
+/-- the heap after allocation + `Store` left, right, parent `nr` (the chain of `SplitChildSlab` and of `splitRoot`): if
+    the slabs below `child` were held, the identifier of the right half is neither an identifier of `child`'s subtree nor
+    the parent's, the parent's identifier is not in `child`'s subtree and `child`'s identifier is not below it, then the
+    heap holds both halves, the parent record under the parent's identifier, and every other identifier is untouched -/
+theorem mrs_splitSt_heapPost (d : Nat) (nr : MMetaSlab (MTree r d)) (x : Option DX) (child l rr : MTree r d)
+    (c c1 : Ctx) (s : MHSt r)
+    (hsp : MTree.split d child c = .ok (l, rr, c1))
+    (hkids : mrs_KidsHeld s.heap d child)
+    (hfresh : (MTree.hdr d rr).id ∉ md_ids d child) (hfreshm : (MTree.hdr d rr).id ≠ nr.hdr.id)
+    (hpar : nr.hdr.id ∉ md_ids d child) (hnd : (MTree.hdr d child).id ∉ mrs_kidIds d child) :
+    let s' := (((s.withCtx c1).store (MTree.hdr d l).id (md_tree d l none)).store (MTree.hdr d rr).id
+      (md_tree d rr none)).store nr.hdr.id (.metaSlab (md_meta nr x))
+    MHolds s'.heap d l none ∧ MHolds s'.heap d rr none ∧
+    s'.heap nr.hdr.id = some (.metaSlab (md_meta nr x)) ∧
+    (∀ id, id ≠ (MTree.hdr d l).id → id ≠ (MTree.hdr d rr).id → id ≠ nr.hdr.id → s'.heap id = s.heap id) := by
+  intro s'
+  obtain ⟨hlid, _, hsub, hheld⟩ := mrs_split_shape d child l rr c c1 hsp
+  obtain ⟨hkl, hkr⟩ := hheld s.heap hkids
+  rw [mrs_md_ids_eq] at hfresh hpar
+  have hheap : ∀ id, s'.heap id = if id = nr.hdr.id then some (.metaSlab (md_meta nr x))
+      else if id = (MTree.hdr d rr).id then some (md_tree d rr none)
+      else if id = (MTree.hdr d l).id then some (md_tree d l none) else s.heap id := fun _ => rfl
+  have hframe : ∀ id, id ≠ (MTree.hdr d l).id → id ≠ (MTree.hdr d rr).id → id ≠ nr.hdr.id → s'.heap id = s.heap id := by
+    intro id h1 h2 h3
+    rw [hheap, if_neg h3, if_neg h2, if_neg h1]
+  have hlr : (MTree.hdr d l).id ≠ (MTree.hdr d rr).id := by
+    rw [hlid]; intro e; exact hfresh (e ▸ List.mem_cons_self)
+  have hlm : (MTree.hdr d l).id ≠ nr.hdr.id := by
+    rw [hlid]; intro e; exact hpar (e ▸ List.mem_cons_self)
+  have hkid : ∀ id, id ∈ mrs_kidIds d child → s'.heap id = s.heap id := by
+    intro id hid
+    refine hframe id ?_ ?_ ?_
+    · rw [hlid]; intro e; exact hnd (e ▸ hid)
+    · intro e; exact hfresh (e ▸ List.mem_cons_of_mem _ hid)
+    · intro e; exact hpar (e ▸ List.mem_cons_of_mem _ hid)
+  refine ⟨?_, ?_, ?_, hframe⟩
+  · refine mrs_holds_of_kids _ d l none ?_ (mrs_KidsHeld_congr s.heap _ d l (fun id hid => hkid id (hsub id (Or.inl hid))) hkl)
+    rw [hheap, if_neg hlm, if_neg hlr, if_pos rfl]
+  · refine mrs_holds_of_kids _ d rr none ?_ (mrs_KidsHeld_congr s.heap _ d rr (fun id hid => hkid id (hsub id (Or.inr hid))) hkr)
+    rw [hheap, if_neg hfreshm, if_pos rfl]
+  · rw [hheap, if_pos rfl]
+
 /-- **the heap after `SplitChildSlab`**: if the slabs below `child` were held, the fresh identifier of the right half is
     neither an identifier of `child`'s subtree nor the parent's, the parent's identifier is not in `child`'s subtree and
     `child`'s identifier is not below it, then the heap holds both halves, the parent record under the parent's
@@ -329,34 +371,9 @@ theorem Ob_SplitChildSlab_heapPost (d : Nat) (m m' : MMetaSlab (MTree r d)) (x :
     MHolds s'.heap d l none ∧ MHolds s'.heap d rr none ∧
     s'.heap m'.hdr.id = some (.metaSlab (md_meta m' x)) ∧
     (∀ id, id ≠ (MTree.hdr d l).id → id ≠ (MTree.hdr d rr).id → id ≠ m'.hdr.id → s'.heap id = s.heap id) := by
-  intro s'
   have hmid := mrs_splitChildSlab_hdr_id m m' child k s.ctx c' hm
-  obtain ⟨hlid, _, hsub, hheld⟩ := mrs_split_shape d child l rr s.ctx c1 hsp
-  obtain ⟨hkl, hkr⟩ := hheld s.heap hkids
-  rw [mrs_md_ids_eq] at hfresh hpar
-  have hheap : ∀ id, s'.heap id = if id = m'.hdr.id then some (.metaSlab (md_meta m' x))
-      else if id = (MTree.hdr d rr).id then some (md_tree d rr none)
-      else if id = (MTree.hdr d l).id then some (md_tree d l none) else s.heap id := fun _ => rfl
-  have hframe : ∀ id, id ≠ (MTree.hdr d l).id → id ≠ (MTree.hdr d rr).id → id ≠ m'.hdr.id → s'.heap id = s.heap id := by
-    intro id h1 h2 h3
-    rw [hheap, if_neg h3, if_neg h2, if_neg h1]
-  have hlr : (MTree.hdr d l).id ≠ (MTree.hdr d rr).id := by
-    rw [hlid]; intro e; exact hfresh (e ▸ List.mem_cons_self)
-  have hlm : (MTree.hdr d l).id ≠ m'.hdr.id := by
-    rw [hlid, hmid]; intro e; exact hpar (e ▸ List.mem_cons_self)
-  have hrm : (MTree.hdr d rr).id ≠ m'.hdr.id := by rw [hmid]; exact hfreshm
-  have hkid : ∀ id, id ∈ mrs_kidIds d child → s'.heap id = s.heap id := by
-    intro id hid
-    refine hframe id ?_ ?_ ?_
-    · rw [hlid]; intro e; exact hnd (e ▸ hid)
-    · intro e; exact hfresh (e ▸ List.mem_cons_of_mem _ hid)
-    · rw [hmid]; intro e; exact hpar (e ▸ List.mem_cons_of_mem _ hid)
-  refine ⟨?_, ?_, ?_, hframe⟩
-  · refine mrs_holds_of_kids _ d l none ?_ (mrs_KidsHeld_congr s.heap _ d l (fun id hid => hkid id (hsub id (Or.inl hid))) hkl)
-    rw [hheap, if_neg hlm, if_neg hlr, if_pos rfl]
-  · refine mrs_holds_of_kids _ d rr none ?_ (mrs_KidsHeld_congr s.heap _ d rr (fun id hid => hkid id (hsub id (Or.inr hid))) hkr)
-    rw [hheap, if_neg hrm, if_pos rfl]
-  · rw [hheap, if_pos rfl]
+  rw [← hmid] at hfreshm hpar
+  exact mrs_splitSt_heapPost d m' x child l rr s.ctx c1 s hsp hkids hfresh hfreshm hpar hnd
 
 end split
 
